@@ -22,13 +22,16 @@ persistence name) | persist | snap (explicit SaveSnapshot) | clear | observation
   content and is preserved by every step.
 * `C09_recover_eq` — after a restart or a stop / re-create the rebuilt state **equals** the state the
   actor had when it last persisted, which is the state it had immediately before; the storage then
-  replays to that state. `C09_stored_is_last_persist`: at every reachable state.
+  replays to that state. `C09_recover_eq_run`: the failure or stop placed after any prefix of any
+  history. `C09_stored_is_last_persist`: at every reachable state.
 * `C09_refines_spec` — on every history the model answers exactly like `MV.Spec.Persistence`
   (state = fold of all events ever recorded; `replay` = state at the last persist; message and
   sender unchanged), modulo the observations the specification leaves open (`mask`).
 * `C09_history_fold` / `C09_no_loss_dup_reorder` — the state after any history is the fold of the
   history's events, in order; for the free fold (state = list of events) it *is* that list: nothing
   lost, duplicated or re-ordered across generations.
+* `C09_persist_stores_journal` — a persist hands exactly the journal to the storage (one `Save`), or
+  nothing when the journal is empty.
 * `C09_names_isolated` — no step touches the record of another persistence name.
 
 The transcription of the code before the repairs (`Variant.original`) violates `C09_recover_eq` and
@@ -342,6 +345,16 @@ theorem C09_recover_eq (F : Fold σ ε) (s : Sys σ ε) (op : Op ε) (hop : op =
     simp only [core] at this
     rw [this]; exact h2.symm
 
+/-- the same along histories: a failure or a stop / re-create placed after **any** prefix `h` of
+    any history, over any storage content, for any threshold, gives back the state reached by `h` -/
+theorem C09_recover_eq_run (F : Fold σ ε) (name : Name) (thr : Nat) (st : Store σ ε) (h : List (Op ε))
+    (op : Op ε) (hop : op = .fail ∨ op = .recreate) :
+    (run Variant.code F (boot Variant.code F name thr st) (h ++ [op])).ctx.actor.st =
+      (run Variant.code F (boot Variant.code F name thr st) h).ctx.actor.st := by
+  rw [run_append]
+  have hg := C09_invariant_run F _ h (C09_invariant_boot F name thr st).1
+  exact (C09_recover_eq F _ op hop hg).1
+
 /-- at every reachable state the stored record replays to the state at the last persist -/
 theorem C09_stored_is_last_persist (F : Fold σ ε) (name : Name) (thr : Nat) (st : Store σ ε) (h : List (Op ε)) :
     let s := run Variant.code F (boot Variant.code F name thr st) h
@@ -371,17 +384,6 @@ theorem C09_refines_spec (F : Fold σ ε) (s : Sys σ ε) (h : List (Op ε)) (hg
           MV.Spec.Persistence.trace F (MV.Spec.Persistence.step F (abs F s) o).1 h
       rw [e1, e2, i2]
 
-omit [DecidableEq σ] [DecidableEq ε] in
-/-- the specification's state is the fold of the history's events -/
-theorem spec_run_cur (F : Fold σ ε) (s : S σ) (h : List (Op ε)) :
-    (MV.Spec.Persistence.run F s h).cur = (eventsOf h).foldl F.apply s.cur := by
-  induction h generalizing s with
-  | nil => rfl
-  | cons o h ih =>
-    show (MV.Spec.Persistence.run F (MV.Spec.Persistence.step F s o).1 h).cur = _
-    rw [ih]
-    cases o <;> rfl
-
 /-- **the state after any history is the fold of all its events, in order** — whatever restarts,
     stop / re-create cycles, explicit persists, explicit snapshots and clears lie in between, for
     every threshold, starting from any storage content -/
@@ -397,11 +399,6 @@ theorem C09_history_fold (F : Fold σ ε) (name : Name) (thr : Nat) (st : Store 
 
 end
 
-theorem foldl_snoc (acc es : List ε) : es.foldl (fun l e => l ++ [e]) acc = acc ++ es := by
-  induction es generalizing acc with
-  | nil => simp
-  | cons e es ih => simp [ih]
-
 /-- **nothing lost, duplicated or re-ordered**: for the free fold (the state is the list of the
     events applied) the state after any history over an empty storage *is* the list of the
     history's events -/
@@ -411,6 +408,49 @@ theorem C09_no_loss_dup_reorder [DecidableEq ε] (name : Name) (thr : Nat) (h : 
   rw [C09_history_fold]
   show (eventsOf h).foldl (fun l e => l ++ [e]) [] = eventsOf h
   rw [foldl_snoc]; rfl
+
+/-- an explicit persist writes exactly the journal (one `Save` call with it), unless the journal is
+    empty, in which case nothing is written: no recorded event is dropped on the way to the storage -/
+theorem C09_persist_stores_journal [DecidableEq σ] [DecidableEq ε] (F : Fold σ ε) (s : Sys σ ε) (hg : Good F s) :
+    let s' := (step Variant.code F s .persist).1
+    (s.ctx.ps ≠ Rec.empty → s'.store s.ctx.name = some s.ctx.ps ∧ s'.saveLog = s.saveLog ++ [s.ctx.ps]) ∧
+    (s.ctx.ps = Rec.empty → s'.store = s.store ∧ s'.saveLog = s.saveLog) ∧
+    s'.ctx.ps = s.ctx.ps := by
+  have hc : core (step Variant.code F s .persist).1 = (core s).persist :=
+    core_cmd_persist Variant.code F s .asker
+  obtain ⟨p, hp⟩ := Option.isSome_iff_exists.mp hg.inited
+  have hp' : s.ctx.pstate = some p := hp
+  have hps : s.ctx.ps = p := by simp [Ctx.ps, hp']
+  have e1 : (step Variant.code F s .persist).1.store = (core s).persist.store := congrArg Core.store hc
+  have e2 : (step Variant.code F s .persist).1.saveLog = (core s).persist.saveLog := congrArg Core.saveLog hc
+  have e3 : (step Variant.code F s .persist).1.ctx.pstate = (core s).persist.pstate := congrArg Core.pstate hc
+  have hpst : ((core s).persist).pstate = s.ctx.pstate := (inv_persist F (core s) hg).2.2.2.2.2.2.1
+  refine ⟨?_, ?_, ?_⟩
+  · intro hne
+    have hc' : ¬ (p.snapshot.isNone && p.events.isEmpty) = true := by
+      intro hh
+      apply hne
+      rw [hps]
+      cases p with
+      | mk sn ev =>
+        simp only [Bool.and_eq_true, Option.isNone_iff_eq_none, List.isEmpty_iff] at hh
+        simp [Rec.empty, hh.1, hh.2]
+    have : (core s).persist =
+        { core s with lastPersist := some (core s).st, store := (core s).store.save (core s).name p,
+                      saveLog := (core s).saveLog ++ [p] } := by
+      simp [Core.persist, hp, hc']
+    rw [this] at e1 e2
+    rw [e1, e2, hps]
+    exact ⟨save_same _ _ _, rfl⟩
+  · intro he
+    have hc' : (p.snapshot.isNone && p.events.isEmpty) = true := by
+      rw [hps] at he; rw [he]; rfl
+    have : (core s).persist = { core s with lastPersist := some (core s).st } := by
+      simp [Core.persist, hp, hc']
+    rw [this] at e1 e2
+    exact ⟨e1, e2⟩
+  · show ((step Variant.code F s .persist).1.ctx.pstate).getD Rec.empty = s.ctx.pstate.getD Rec.empty
+    rw [e3, hpst]
 
 /-- no step touches what is stored under another persistence name -/
 theorem C09_names_isolated [DecidableEq σ] [DecidableEq ε] (F : Fold σ ε) (s : Sys σ ε) (op : Op ε)
